@@ -402,6 +402,66 @@ def _check_batch_outcome(w: World, got: Tuple[Any, ...], calls: List[gen.Logical
                         f'{op}[first failing call {first_fail}]', ctx)
 
 
+def fam_batch_reuse(w: World) -> None:
+    """One batch object: filled, called, filled further, called again (2-3 rounds)."""
+    ch = w.ch
+    cfg = _config(w)
+    rounds = 2 + ch.draw(2, 'rounds')
+    first_all_notif = ch.flag(1, 3, 'first_all_notifications')
+    notation = ch.choice(['add', 'dunder', 'proxy'], 'notation')
+    plan: List[List[gen.LogicalCall]] = []
+    k = 0
+    for r in range(rounds):
+        cs = []
+        for _ in range(1 + ch.draw(2, 'round.size')):
+            c = gen.logical_call(ch, f't{k}')
+            if r == 0 and first_all_notif:
+                c.notification = True
+            cs.append(c)
+            k += 1
+        plan.append(cs)
+    _plan_pauses(w, [c for cs in plan for c in cs])
+    w.scenario = {'cfg': cfg, 'rounds': [[c.describe() for c in cs] for cs in plan], 'notation': notation}
+    w.nontrivial = True
+    st = _stack(w, cfg, suffix='')
+    b = st.client.batch
+    p = b.proxy
+    so_far: List[gen.LogicalCall] = []
+    for r, cs in enumerate(plan):
+        for c in cs:
+            if c.notification:
+                b.notify(c.method, *c.args, **c.kwargs)
+            elif notation == 'dunder':
+                b(c.method, *c.args, **c.kwargs)
+            elif notation == 'proxy':
+                getattr(p, c.method)(*c.args, **c.kwargs)
+            else:
+                b.add(c.method, *c.args, **c.kwargs)
+        so_far = so_far + cs
+        ctx = {'notation': notation, 'id_gen': cfg['id_gen'], 'kind': 'batch_reuse', 'strict': cfg['strict'], 'round': r,
+               'all_notifications': all(c.notification for c in so_far)}
+        op = f'reused batch, round {r} [{len(so_far)}]'
+        before = len(st.net.sent)
+        got = _tuple_outcome(lambda: st.run(lambda: b.call()))
+        sent = st.net.sent[before:]
+        if got[0] == 'raise' and isinstance(got[1], TypeError) and not sent:
+            w.violate('C07.wire.encode', f'{op}: request could not be encoded: {got[1]}', exc='TypeError', **ctx)
+            return
+        if len(sent) != 1:
+            w.violate('C07.wire.count', f'{op}: {len(sent)} documents on the wire, expected exactly one', **ctx)
+            return
+        _check_doc(w, sent[0], so_far, True, op)
+        _check_batch_outcome(w, got, so_far, op, ctx)
+        if w.violations:
+            return
+    recs = [x for x in w.history if x['node'] == st.server.node and x['kind'] == 'method.enter']
+    want = sorted((c.method, c.tok) for r, cs in enumerate(plan) for c in cs for _ in range(rounds - r))
+    got_ex = sorted((x['method'], x['tok']) for x in recs)
+    if want != got_ex:
+        w.violate('C07.executions', f'reused batch: executed {got_ex}, expected {want}', kind='batch_reuse',
+                  id_gen=cfg['id_gen'])
+
+
 def fam_concurrent(w: World) -> None:
     """Two or three callers share ONE asynchronous client (and one server); their calls overlap in virtual time."""
     import asyncio
@@ -494,10 +554,11 @@ def systematic(tier: str):
                                    'cfg.id_gen': [idg], 'cfg.nonstrict': [ns]}
 
 
-FAMILIES = {'e2e.single': fam_single, 'e2e.batch': fam_batch, 'e2e.concurrent': fam_concurrent}
+FAMILIES = {'e2e.single': fam_single, 'e2e.batch': fam_batch, 'e2e.concurrent': fam_concurrent,
+            'e2e.batch_reuse': fam_batch_reuse}
 SYSTEMATIC = {'e2e.single': systematic, 'e2e.batch': systematic}
 PLAN = {
-    'quick': {'e2e.single': 30000, 'e2e.batch': 30000, 'e2e.concurrent': 15000},
-    'thorough': {'e2e.single': 20000, 'e2e.batch': 20000, 'e2e.concurrent': 45000},
+    'quick': {'e2e.single': 30000, 'e2e.batch': 30000, 'e2e.concurrent': 15000, 'e2e.batch_reuse': 15000},
+    'thorough': {'e2e.single': 20000, 'e2e.batch': 20000, 'e2e.concurrent': 45000, 'e2e.batch_reuse': 45000},
 }
 THOROUGH_BUDGET_S = 600
